@@ -11,7 +11,7 @@ def g_exit(repo):
     for c in ('FAILURE_STATUS_CODE', 'SUCCESS_STATUS_CODE', 'ERROR_STATUS_CODE', 'TEST_ERROR_STATUS_CODE', 'TEST_FAILURE_STATUS_CODE'):
         g.const(CMD + 'mod.rs', c)
     g.raw('spec_exit.rs')
-    g.fn('U-xt', CMD + 'test.rs', 'get_exit_code', spec='get_exit_code.spec', props=['C06', 'C08'])
+    g.fn('U-xt', CMD + 'test.rs', 'get_exit_code', spec='get_exit_code.spec', props=['C06', 'C08', 'C16'])
     g.text('''pub struct JunitReporter { pub exit_code: i32 }\n''', 'projection of JunitReporter to the field update_exit_code touches (R6p)')
     g.fn('U-xj', CMD + 'reporters/mod.rs', 'update_exit_code', impl=r'JunitReporter', spec='update_exit_code.spec',
          wrap_impl='impl JunitReporter', props=['C06'])
